@@ -8,7 +8,7 @@ CLAIMS = {
              text="Sql.tla models the WHERE pipeline as coded (AddComparison tightening, BETWEEN = (>,<), IsFalse short cut, Epoch push-down with its +-1 adjustment and literal kinds, interval scan / trimResultsToRange, per-column post-filter) next to the declarative filter. TLC checks exhaustively that the deviation-free pipeline equals the declarative filter for all conjunctions of <= 2 comparisons (thorough: plus simulated conjunctions of 3) over {Epoch, three value columns} x {<,<=,>,>=,=,BETWEEN} x bounds on / between / outside stored values x literal kinds {datetime string, epoch seconds, epoch nanoseconds}. All single comparisons and a seeded sample of the longer conjunctions are rendered as SQL text and run through DataService.Query on a 5-row fixed-length and a 6-row variable-length 1Min bucket; the returned rows must be exactly the rows the declarative filter selects from the rows a plain query returns.",
              note="Trusted: TLC, the Python rendering (grid positions -> timestamps / literals, levels -> column values). Value literals are non-negative (unary minus is rejected by the parser with an explicit error) and integer for integer columns; <> is not part of the statement. A response without columns (provably false predicate) is read as zero rows."),
  "C20": dict(technique="TLA+ model of Project/Rename, LIMIT (pushed down or not) and InsertIntoStatement vs the relational answer, checked by TLC; TLC-enumerated statements executed as SQL text by the real server, INSERT targets re-queried",
-             text="TLC enumerates every select list (ordered subsets of Epoch and three value columns, each item without alias, with a fresh alias or with an alias that is the name of another bucket column), LIMIT 0..rows+1 with and without WHERE, and INSERT INTO for source selections (no WHERE, lower/upper/BETWEEN Epoch range, value predicate, empty selection, LIMIT) x select lists containing Epoch x target timeframes (same, 5x, 60x; fixed and variable target), and checks that the deviation-free pipeline equals the relational answer. Every LIMIT x WHERE case, every select list of <= 2 items and a seeded sample of the rest are executed as SQL text on a fixed and a variable bucket; result columns (by output name) and rows are compared; after INSERT the target bucket is queried with the plain query API and must hold the selected rows at timestamps truncated to the target timeframe.",
+             text="TLC enumerates every select list (ordered subsets of Epoch and three value columns, each item without alias, with a fresh alias or with an alias that is the name of another bucket column), LIMIT 0..rows+1 with and without WHERE, and INSERT INTO for source selections (no WHERE, lower/upper/BETWEEN Epoch range, value predicate, empty selection, LIMIT) x select lists containing Epoch x target timeframes (same, 5x, 60x; fixed and variable target), and checks that the deviation-free pipeline equals the relational answer. Every LIMIT value with and without WHERE, every select list of <= 2 items and a seeded sample of the rest (other WHERE clauses, longer lists, INSERTs) are executed as SQL text on a fixed and a variable bucket; result columns (by output name) and rows are compared; after INSERT the target bucket is queried with the plain query API and must hold the selected rows at timestamps truncated to the target timeframe.",
              note="Trusted: TLC, the Python rendering. Rows of one INSERT that fall into the same interval of a fixed-length target: any one of them is accepted. Variable-length target: time accepted within [start of target interval, source time + 1 s] (sub-second part is not carried by INSERT; KF-C09-1). Column order of a result is not compared. The statement result of INSERT itself is not part of the property."),
 }
 import calendar, json, os, random, shutil, struct, time
@@ -256,10 +256,10 @@ def chunked_run(binary, root, setup_ops, stmts, tag):
     return out
 
 
-def tlc_consts(b, depth, mod, salt, mod20, classes):
+def tlc_consts(b, depth, mod, salt, mod20, classes, rich=False):
     c = b.consts()
     c.update(Depth=depth, Deviations="{" + ", ".join('"%s"' % d for d in ALL_DEVS) + "}", SampleMod=mod, SampleSalt=salt,
-             TgtClasses="{" + ", ".join(str(x) for x in classes) + "}", SampleMod20=mod20)
+             TgtClasses="{" + ", ".join(str(x) for x in classes) + "}", SampleMod20=mod20, Rich="TRUE" if rich else "FALSE")
     return c
 
 
@@ -283,8 +283,8 @@ def run(prop, tier):
         if prop == "C19":
             cfg = "Sql_%s_where.cfg" % b.kind
             r = vlib.run_tlc("Sql", cfg, timeout=1500, heap="6g",
-                             cfg_text=vlib.cfg_text(tlc_consts(b, 2, 40 if quick else 3, salt, 1, [1]), spec="SpecW",
-                                                    invariants=["PureRefinesDecl", "DeviationsExplainAllW", "GuardsSufficeW", "EmitW"]))
+                             cfg_text=vlib.cfg_text(tlc_consts(b, 2, 80 if quick else 4, salt, 1, [1]), spec="SpecW",
+                                                    invariants=["CheckW", "EmitW"]))
             vlib.tlc_ok(r, cfg)
             if r["violated"]:
                 raise Undecided("MODEL-DRIFT: %s violates %s in the model\n%s" % (cfg, r["violated"], r["out"][-3000:]))
@@ -296,7 +296,7 @@ def run(prop, tier):
                 cfg = "Sql_%s_where3.cfg" % b.kind
                 r = vlib.run_tlc("Sql", cfg, timeout=1500, heap="6g", simulate=4000, depth=4, workers=1, seed_=rng.randrange(1, 2 ** 31),
                                  cfg_text=vlib.cfg_text(tlc_consts(b, 3, 1, salt, 1, [1]), spec="SpecW",
-                                                        invariants=["PureRefinesDecl", "DeviationsExplainAllW", "GuardsSufficeW", "EmitW"]))
+                                                        invariants=["CheckW", "EmitW"]))
                 vlib.tlc_ok(r, cfg)
                 if r["violated"]:
                     raise Undecided("MODEL-DRIFT: %s violates %s in the model\n%s" % (cfg, r["violated"], r["out"][-3000:]))
@@ -306,8 +306,8 @@ def run(prop, tier):
             cfg = "Sql_%s_select.cfg" % b.kind
             classes = [1, 2, 3] + ([4] if b.kind == "variable" else [])
             r = vlib.run_tlc("Sql", cfg, timeout=1500, heap="6g",
-                             cfg_text=vlib.cfg_text(tlc_consts(b, 1, 1, salt, 60 if quick else 6, classes), spec="Spec20",
-                                                    invariants=["PureRefinesDecl20", "DeviationsExplainAll20", "GuardsSuffice20", "WhereIsClean20", "Emit20"]))
+                             cfg_text=vlib.cfg_text(tlc_consts(b, 1, 1, salt, 12 if quick else 3, classes, rich=not quick), spec="Spec20",
+                                                    invariants=["Check20", "Emit20"]))
             vlib.tlc_ok(r, cfg)
             if r["violated"]:
                 raise Undecided("MODEL-DRIFT: %s violates %s in the model\n%s" % (cfg, r["violated"], r["out"][-3000:]))
@@ -384,6 +384,7 @@ def run(prop, tier):
         return res.finish()
     counts = {"statements": 0, "deviating_as_listed": 0, "zero_column_responses": 0, "inserts": 0, "insert_empty_selection_panics": 0}
     per_dev = {}
+    deviating = []
     for sid, (b, c, sql, tgt) in meta.items():
         o = obs[sid]
         counts["statements"] += 1
@@ -406,15 +407,33 @@ def run(prop, tier):
         elif verdict == "bad":
             res.violation("%s\n  returned %s" % (sql, detail), replay)
         else:
-            # the answer is the one the model predicts under the listed deviations `verdict` (all exercised by this statement)
+            # the answer is the one the model predicts under listed deviations; `verdict` = the smallest sets of
+            # deviations (all exercised by this statement) that explain it
             counts["deviating_as_listed"] += 1
-            for d in verdict:
-                per_dev[d] = per_dev.get(d, 0) + 1
-                if d in known:
-                    res.known_finding(known[d], {"sql": sql, "got": detail[:200]})
-                else:
-                    res.violation("deviation %s observed but not listed as known for %s: %s -> %s" % (d, prop, sql, detail), replay)
+            deviating.append(([frozenset(d) for d in verdict], sql, detail, replay))
         res.sample({"sql": sql, "expect_rows": c["expect"] if prop == "C19" else c["expect"]["rows"], "bucket": b.key}, limit=4)
+    # which listed defects does this run re-demonstrate?  Statements with a single explanation decide; a statement
+    # with several possible explanations adds something only when none of them is already demonstrated.
+    live, example = set(), {}
+    for expl, sql, detail, replay in deviating:
+        if len(expl) == 1:
+            for d in expl[0]:
+                live.add(d)
+                example.setdefault(d, (sql, detail))
+    for expl, sql, detail, replay in deviating:
+        if len(expl) > 1 and not any(e <= live for e in expl):
+            for d in sorted(expl, key=lambda e: (len(e), sorted(e)))[0]:
+                live.add(d)
+                example.setdefault(d, (sql, detail))
+    for expl, sql, detail, replay in deviating:
+        for d in set().union(*[e for e in expl if e <= live]):
+            per_dev[d] = per_dev.get(d, 0) + 1
+    for d in sorted(live):
+        if d in known:
+            res.known_finding(known[d], {"sql": example[d][0], "got": example[d][1][:200]})
+        else:
+            rp = [r for e, s_, _, r in deviating if any(d in x for x in e)][0]
+            res.violation("deviation %s observed but not listed as known for %s: %s -> %s" % (d, prop, example[d][0], example[d][1]), rp)
     res.cov.update(counts)
     res.cov["known_deviation_hits"] = per_dev
     res.cov["buckets"] = [b.describe() for b in buckets]
@@ -434,9 +453,9 @@ def judge_select(b, o, expect, alts, star):
         return "ok", ""
     want = "the property demands rows %s = %s" % (expect["rows"], json.dumps(exp)[:500])
     got = real if isinstance(real, str) else "columns %s rows %s" % (real[0], json.dumps(real[1])[:600])
-    for devs, ans in sorted(alts, key=lambda x: len(x[0])):
+    for devs, ans in alts:
         if devs and same_table(real, expected_table(b, ans, star)):
-            return sorted(devs), got + "; " + want
+            return [sorted(d) for d in devs], got + "; " + want
     return "bad", got + "; " + want
 
 
@@ -491,3 +510,60 @@ def judge_insert(b, o, c, tgt, counts):
         if not any(rvals(r) == vals(k) for k in g):
             return "bad", "target row %s differs from the selected rows %s of its interval%s" % (r, [vals(k) for k in g], note)
     return "ok", ""
+
+
+class _ReplayBucket(Bucket):
+    def __init__(self, d):
+        self.kind, self.key, self.types, self.stored = d["kind"], d["key"], d["types"], d["stored"]
+
+
+def replay(rp):
+    """python3 tools/check.py --replay replays/<file>.json : re-executes one recorded statement on the current tree"""
+    r = rp["replay"]
+    prop, c = r["prop"], r.get("case")
+    if c is None:
+        print("UNDECIDED: this replay file records a process death over several statements: %s" % r.get("statements", [])[:5])
+        return 2
+    binary = vlib.build_harness()
+    b = _ReplayBucket(r["bucket"])
+    root = os.path.join(vlib.scratch(), "root_replay")
+    ops = [{"op": "start", "root": root}] + r["setup"] + [{"op": "query", "dest": b.key}] + (r.get("ops") or [{"op": "sql", "stmt": r["sql"]}])
+    obs = vlib.run_cases(binary, [{"id": "r", "ops": ops}])['"r"']
+    if isinstance(obs, dict) and "died" in obs:
+        print("VIOLATION property=%s replay: process died: %s" % (prop, obs["stderr"][-500:]))
+        return 1
+    base = table_of(obs[len(r["setup"]) + 1])
+    if isinstance(base, str) or base[1] != b.stored:
+        print("UNDECIDED: the stored rows differ from the recorded ones: %s" % (base,))
+        return 2
+    o = obs[len(r["setup"]) + 2:]
+    print(r["sql"])
+    for x in o:
+        print("observed:", json.dumps({k: v for k, v in x.items() if k != "stack"})[:800])
+    if prop == "C19":
+        verdict, detail = judge_select(b, o[0], {"rows": c["expect"], "cols": STAR},
+                                       [(a["devs"], {"rows": a["ans"], "cols": STAR}) for a in c["alts"]], True)
+    elif not c["ins"]:
+        verdict, detail = judge_select(b, o[0], c["expect"], [(a["devs"], a["ans"]) for a in c["alts"]], c["star"])
+    else:
+        cr = r["ops"][0]
+        outcols = []
+        for nm in cr["names"]:
+            for x in c["expect"]["cols"]:
+                if REAL_NAME.get(x["n"], x["n"]) == nm:
+                    outcols.append((x["n"], x["s"]))
+        verdict, detail = judge_insert(b, o, c, (r["ops"][2]["dest"], TGT_TF[c["ins"]][1], outcols, r["ops"]), {"insert_empty_selection_panics": 0})
+    if verdict == "ok":
+        print("OK property=%s: the recorded statement no longer violates the property" % prop)
+        return 0
+    if verdict == "bad":
+        print("VIOLATION property=%s (replayed)\n  %s" % (prop, detail[:1000]))
+        return 1
+    known = {k["deviation"]: k for k in vlib.known_findings(prop)}
+    expl = sorted(verdict, key=lambda e: (len(e), e))[0]
+    if all(d in known for d in expl):
+        for d in expl:
+            print("KNOWN-FINDING: property=%s %s: %s" % (prop, known[d]["id"], known[d]["what"]))
+        return 0
+    print("VIOLATION property=%s (replayed): deviation %s is not a listed finding\n  %s" % (prop, expl, detail[:1000]))
+    return 1
